@@ -49,12 +49,31 @@ def _expect_error():
     return judge
 
 
+def _expressible(x):
+    # `\\xNN` in a Seed literal denotes a *character* (UTF-8 encoded), so only ASCII bytes can be written
+    return x < 0x80 and x not in (0x00, 0x0a, 0x0d)
+
+
 def seed_str(bs):
-    """Seed string literal for a byte string; only ASCII is expressible (`\\xNN` denotes a *character*)."""
+    """Seed string literal for a byte string (ASCII only)."""
     for x in bs:
-        if x >= 0x80 or x in (0x0a, 0x0d, 0x00):
+        if not _expressible(x):
             raise ValueError("byte not expressible in a Seed string literal")
     return '"' + "".join(f"\\x{x:02x}" for x in bs) + '"'
+
+
+def standins(*byte_seqs):
+    """The solver picks arbitrary bytes (0x80, 0x00, ...) where the value does not matter.  Map every byte
+    that cannot be written in a literal to an unused ASCII letter, injectively, so that the equality
+    structure of the counterexample is preserved; expressible bytes stay as they are."""
+    used = {x for bs in byte_seqs for x in bs}
+    free = [c for c in range(0x61, 0x7b) if c not in used] + [c for c in range(0x41, 0x5b) if c not in used]
+    m = {}
+    for bs in byte_seqs:
+        for x in bs:
+            if x not in m:
+                m[x] = x if _expressible(x) else free.pop(0)
+    return [bytes(m[x] for x in bs) for bs in byte_seqs]
 
 
 def seed_list(ns):
@@ -174,7 +193,7 @@ def _str2(v, p):
 
 
 def _eq_str_replay(v):
-    x, y, z = _str2(v, "x"), _str2(v, "y"), _str2(v, "z")
+    x, y, z = standins(_str2(v, "x"), _str2(v, "y"), _str2(v, "z"))
     script = (f"a := {seed_str(x)};\nb := {seed_str(y)};\nd := {seed_str(z)};\n"
               "print(a == a);\nprint(a == b);\nprint(b == a);\nprint(a != b);\nprint(b == d);\nprint(a == d);\n")
     return script, _expect_lines([_b(True), _b(x == y), _b(x == y), _b(x != y), _b(y == z), _b(x == z)])
@@ -310,9 +329,11 @@ RANGE_INPUTS_LIST = [("e0", "i64"), ("e1", "i64"), ("e2", "i64"), ("has_start", 
                      ("has_end", "bool"), ("end", "usize")]
 
 
-def _range_replay(n, lit):
+def _range_replay(n, lit, is_str=False):
     def mk(v):
         elems = [v["e0"], v["e1"], v["e2"]][:n]
+        if is_str:
+            elems = list(standins(bytes(elems))[0])
         a = v["start"] if v["has_start"] else 0
         b = v["end"] if v["has_end"] else n
         sa = _index(v["start"]) if v["has_start"] else ""
@@ -325,10 +346,12 @@ def _range_replay(n, lit):
     return mk
 
 
-def _concat_replay(lit, with_identity):
+def _concat_replay(lit, with_identity, is_str=False):
     def mk(v):
         xs = [v["x0"], v["x1"]][:_len2(v, "x")]
         ys = [v["y0"], v["y1"]][:_len2(v, "y")]
+        if is_str:
+            xs, ys = (list(t) for t in standins(bytes(xs), bytes(ys)))
         script = f"a := {lit(xs)};\nb := {lit(ys)};\nr := a + b;\nprint(r == {lit(xs + ys)});\n"
         want = ["true"]
         if with_identity:
@@ -351,7 +374,7 @@ for _n in (0, 1, 2, 3):
     C11_UNITS.append(KUnit(f"c11_str_range_len{_n}", "eval_range", EVAL, ["eval::get_str_range_index"],
                            kind="bounded", bound="sequence length <= 3 (one harness per length); bytes and both "
                            "optional bounds (full usize domain) symbolic",
-                           inputs=RANGE_INPUTS_STR, replay=_range_replay(_n, lambda e: seed_str(bytes(e)))))
+                           inputs=RANGE_INPUTS_STR, replay=_range_replay(_n, lambda e: seed_str(bytes(e)), True)))
 def _list_range_cells_replay(n, cells):
     """All defined cells of the group print `true`; then the first out-of-domain cell must stop with exit 103."""
     def mk(v):
@@ -408,7 +431,7 @@ CONCAT_STR_INPUTS = [(p + s, t) for p in "xy" for s, t in (("b0", "bool"), ("b1"
 C11_UNITS += [
     KUnit("c11_concat_str", "eval_range", EVAL, ["eval::apply_binary_operation (Sum, Str x Str)"],
           kind="bounded", bound="both strings of length <= 2, bytes symbolic",
-          inputs=CONCAT_STR_INPUTS, replay=_concat_replay(lambda e: seed_str(bytes(e)), False)),
+          inputs=CONCAT_STR_INPUTS, replay=_concat_replay(lambda e: seed_str(bytes(e)), False, True)),
 ]
 
 
@@ -436,9 +459,11 @@ C11_UNITS += [
 # ---------------------------------------------------------------------------
 # C07 (leaf): iteration snapshot
 # ---------------------------------------------------------------------------
-def _pairs_replay(n, lit):
+def _pairs_replay(n, lit, is_str=False):
     def mk(v):
         elems = [v["e0"], v["e1"], v["e2"]][:n]
+        if is_str:
+            elems = list(standins(bytes(elems))[0])
         script = (f"s := {lit(elems)};\ni := 0;\nfor p in s {{\n    print(p == [i, s[i]]);\n    i += 1;\n}}\n"
                   "print(i);\n")
         return script, _expect_lines(["true"] * n + [str(n)])
@@ -483,7 +508,7 @@ for _n in (1, 2, 3):
     C07_LEAF_UNITS.append(KUnit(f"c07_pairs_str_len{_n}", "eval_pairs", EVAL, PAIRS_FN, kind="bounded",
                                 bound="string length <= 3 (one harness per length), bytes symbolic",
                                 inputs=[("e0", "u8"), ("e1", "u8"), ("e2", "u8")],
-                                replay=_pairs_replay(_n, lambda e: seed_str(bytes(e)))))
+                                replay=_pairs_replay(_n, lambda e: seed_str(bytes(e)), True)))
 for _n in (1, 2, 3):
     C07_LEAF_UNITS.append(KUnit(f"c07_pairs_list_len{_n}", "eval_pairs", EVAL, PAIRS_FN, kind="bounded",
                                 bound="list length <= 3 (one harness per length), elements Int (payloads symbolic)",
